@@ -366,6 +366,10 @@ class Vmap(Generic[R], GenerativeFunction[R]):
         args: tuple[Any, ...],
     ) -> tuple[Score, R]:
         dim_length = self._static_broadcast_dim_length(self.in_axes, args)
+        if dim_length == 0:
+            # A zero-length map makes no choices (its trace's choice map is empty):
+            # there is nothing to assess the inner function against.
+            return jnp.zeros(()), self.__abstract_call__(*args)
 
         def _inner(idx, args):
             return self.gen_fn.assess(sample(idx), args)
